@@ -679,3 +679,28 @@ fn c07_directory_sync_makes_one_created_entry_durable() {
     kani::cover!(n == 2, "reached");
     std::mem::forget(fs);
 }
+
+// a durable directory tree survives the crash together with its durable file; the unsynced removal of
+// both is rolled back
+// @verif id=C07 tier=quick role=crash_step timeout=900
+#[kani::proof]
+#[kani::unwind(10)]
+fn c07_crash_keeps_a_durable_directory_tree() {
+    let ab: [u8; 2] = kani::any();
+    let mut fs = empty(FsConfig::default());
+    fs.persisted_dirs.insert(pb("/d"), DirData::new(T0));
+    fs.synced_entries.insert(pb("/d"));
+    fs.persisted_files.insert(pb("/d/f"), file_with(&ab));
+    fs.synced_entries.insert(pb("/d/f"));
+    fs.pending.push(PendingOp::RemoveFile { path: pb("/d/f") });
+    fs.pending.push(PendingOp::RemoveDir { path: pb("/d") });
+    assert!(!fs.file_exists(p("/d/f")) && !fs.dir_exists(p("/d")), "before the crash the removals are visible");
+    fs.crash();
+    assert!(fs.pending.is_empty());
+    assert!(fs.dir_exists(p("/d")) && fs.dir_exists(p("/")) && fs.file_exists(p("/d/f")), "unsynced removals are rolled back");
+    let (n, buf) = read2(&fs, p("/d/f"));
+    assert!(n == 2 && buf[0] == ab[0] && buf[1] == ab[1]);
+    assert!(fs.persisted_files.len() == 1 && fs.persisted_dirs.len() == 2);
+    kani::cover!(n == 2, "reached");
+    std::mem::forget(fs);
+}
